@@ -400,6 +400,9 @@ def extract_function(fn):
     c_params = param_names(csig[cj + 1:ck])
     extra = set(fn.get("extra_params", [])) | {"self"}
     c_core = [p for p in c_params if p not in extra]
+    src_params = [p for p in src_params if p not in set(fn.get("dropped_params", []))]   # e.g. allocator arguments (recorded in the log)
+    if fn.get("dropped_params"):
+        log.append("source parameters dropped: %s" % ", ".join(fn["dropped_params"]))
     if c_core != src_params:
         raise ExtractionBroken("%s: parameter names changed: source %s vs contract signature %s"
                                % (fn["name"], src_params, c_core))
